@@ -12,10 +12,10 @@ def write_if_changed(name, text):
         open(p, "w").write(text)
 
 
-def read(rel):
+def c20_read(rel):
     return open(os.path.join(REPO, rel), encoding="utf-8").read()
 
-def fn_body(src, name):
+def c20_fn_body(src, name):
     """text of `fn name(...) ... { body }` (brace matching; good enough for rustfmt-formatted code without braces in strings)"""
     m = re.search(r"\bfn\s+" + re.escape(name) + r"\s*[(<]", src)
     if not m:
@@ -56,20 +56,20 @@ def fn_body(src, name):
         k += 1
     return None
 
-def lean_bool(b):
+def c20_lean_bool(b):
     return "true" if b else "false"
 
 def extract_query_glue():
     """C20: what query.rs does between (line, col) and the first use of the offset, the completion
     placeholder, and the three TokenAtOffset::Between tie-break rules (asserted, not modelled twice)"""
-    src = read("crates/compiler/src/query.rs")
+    src = c20_read("crates/compiler/src/query.rs")
     m = re.search(r'const COMPLETION_PLACEHOLDER: &str = "([A-Za-z0-9_]+)";', src)
     if not m:
         raise Exception("query.rs: COMPLETION_PLACEHOLDER constant not found (or not a plain identifier)")
     placeholder = m.group(1)
     bodies = {}
     for f in ("hover_type", "dot_completions", "colon_colon_completions"):
-        b = fn_body(src, f)
+        b = c20_fn_body(src, f)
         if not b:
             raise Exception(f"query.rs: fn {f} not found")
         bodies[f] = b
@@ -79,7 +79,7 @@ def extract_query_glue():
         checked_add = bounds = boundary = False
         how = "line_index.offset(LineCol { line, col }) used directly in all three queries"
     elif len(helper) == 3 and not direct:
-        h = fn_body(src, "offset_at")
+        h = c20_fn_body(src, "offset_at")
         if not h:
             raise Exception("query.rs: fn offset_at not found although the queries call it")
         if not re.search(r"LineIndex::new\(src\)", h) or not re.search(r"\.offset\(\s*line_index::LineCol\s*\{\s*line,\s*col:\s*0\s*\}\s*\)\?", h):
@@ -110,7 +110,7 @@ namespace Goml.Gen
 open Goml.Query
 
 /-- the checks query.rs performs on the offset computed from (line, col) -/
-def queryGlue : Glue := {{ checkedAdd := {lean_bool(checked_add)}, boundsCheck := {lean_bool(bounds)}, boundaryCheck := {lean_bool(boundary)} }}
+def queryGlue : Glue := {{ checkedAdd := {c20_lean_bool(checked_add)}, boundsCheck := {c20_lean_bool(bounds)}, boundaryCheck := {c20_lean_bool(boundary)} }}
 
 /-- `COMPLETION_PLACEHOLDER` -/
 def completionPlaceholder : String := "{placeholder}"
@@ -120,33 +120,33 @@ end Goml.Gen
     write_if_changed("QueryGlue.lean", text)
 
 
-def t_names(text):
+def c04_t_names(text):
     """`T![fn] | T!['}'] | …` -> ["fn", "}", …]"""
     return [m.group(1) or m.group(2) for m in re.finditer(r"T!\[(?:'([^']+)'|([^\]]+))\]", text)]
 
-def lean_str_list(xs):
+def c04_lean_str_list(xs):
     return "[" + ", ".join('"' + x.replace("\\", "\\\\").replace('"', '\\"') + '"' for x in xs) + "]"
 
 def extract_parser_consts():
     """C04: the parser's fuel constant and the shape of peek/nth/advance it is used in"""
-    src = read("crates/parser/src/parser.rs")
-    new = fn_body(src, "new")
+    src = c20_read("crates/parser/src/parser.rs")
+    new = c20_fn_body(src, "new")
     m = re.search(r"fuel:\s*Cell::new\((\d+)\)", src)
     if not m:
         raise Exception("parser.rs: `fuel: Cell::new(N)` not found in Parser::new")
     fuel = int(m.group(1))
-    adv = fn_body(src, "advance")
+    adv = c20_fn_body(src, "advance")
     m2 = re.search(r"self\.fuel\.set\((\d+)\);", adv or "")
     if not adv or not m2 or int(m2.group(1)) != fuel:
         raise Exception("parser.rs: advance() no longer resets the fuel to the initial value")
     if not re.search(r"self\.input\.skip\(\);\s*self\.stuck_reported\.set\(false\);\s*self\.events\.push\(Event::Advance\);", adv):
         raise Exception("parser.rs: advance() is not `fuel.set; input.skip; stuck_reported.set(false); push(Advance)`")
     for f in ("peek", "nth"):
-        b = fn_body(src, f)
+        b = c20_fn_body(src, f)
         if not b or not re.search(r"if self\.fuel\.get\(\) == 0 \{", b) or not re.search(r"return T!\[eof\];", b) \
                 or not re.search(r"self\.fuel\.set\(self\.fuel\.get\(\) - 1\);", b) or not re.search(r"if !self\.stuck_reported\.get\(\)", b):
             raise Exception(f"parser.rs: {f}() is not the modelled fuel check (fuel == 0 -> report once, return eof; else fuel -= 1)")
-    eof = fn_body(src, "eof")
+    eof = c20_fn_body(src, "eof")
     if not eof or "self.input.eof()" not in eof or "fuel" in eof:
         raise Exception("parser.rs: eof() is not the plain input.eof() any more")
     text = f"""/- GENERATED by tools/extract.py from crates/parser/src/parser.rs — do not edit. -/
@@ -161,44 +161,46 @@ end Goml.Gen
 
 def extract_recovery():
     """C04: should_consume_on_expect_failure (tokens `expect` never eats) and EXPR_FIRST"""
-    src = read("crates/parser/src/parser.rs")
-    b = fn_body(src, "should_consume_on_expect_failure")
+    src = c20_read("crates/parser/src/parser.rs")
+    b = c20_fn_body(src, "should_consume_on_expect_failure")
     if not b or not re.search(r"!matches!\(\s*kind,", b):
         raise Exception("parser.rs: should_consume_on_expect_failure is not `!matches!(kind, …)`")
-    keep = t_names(b)
+    keep = c04_t_names(b)
     if len(keep) < 5 or "fn" not in keep or "}" not in keep:
         raise Exception(f"parser.rs: unexpected recovery set {keep}")
-    ex = fn_body(src, "expect")
+    ex = c20_fn_body(src, "expect")
     if not ex or not re.search(r"if cur_kind == T!\[eof\] \|\| !should_consume_on_expect_failure\(cur_kind\) \{\s*self\.events\.push\(Event::Error\(err_msg\)\);\s*return;\s*\}\s*self\.advance_with_error\(&err_msg\);", ex):
         raise Exception("parser.rs: expect() is not the modelled recovery (error only on eof / recovery token, else advance_with_error)")
-    awe = fn_body(src, "advance_with_error")
+    awe = c20_fn_body(src, "advance_with_error")
     if not awe or not re.search(r"self\.events\.push\(Event::Error\(error\.to_string\(\)\)\);\s*self\.advance\(\);", awe):
         raise Exception("parser.rs: advance_with_error() no longer advances unconditionally")
-    esrc = read("crates/parser/src/expr.rs")
+    esrc = c20_read("crates/parser/src/expr.rs")
     m = re.search(r"pub const EXPR_FIRST: &\[TokenKind\] = &\[(.*?)\];", esrc, flags=re.S)
     if not m:
         raise Exception("expr.rs: EXPR_FIRST not found")
-    first = t_names(m.group(1))
-    fsrc = read("crates/parser/src/file.rs")
-    fb = fn_body(fsrc, "file")
+    first = c04_t_names(m.group(1))
+    fsrc = c20_read("crates/parser/src/file.rs")
+    fb = c20_fn_body(fsrc, "file")
     if not fb or not re.search(r"while !p\.eof\(\) \{", fb) or not re.search(r"\} else \{\s*p\.advance_with_error\(\"expected a function\"\)\s*\}", fb):
         raise Exception("file.rs: the top-level loop is not `while !p.eof() { if p.at(..) … else { p.advance_with_error(..) } }`")
-    guards = t_names(" ".join(re.findall(r"if p\.at\((T!\[[^\]]+\])\)", fb)))
+    guards = c04_t_names(" ".join(re.findall(r"if p\.at\((T!\[[^\]]+\])\)", fb)))
     text = f"""/- GENERATED by tools/extract.py from crates/parser/src/parser.rs, expr.rs, file.rs — do not edit. -/
 namespace Goml.Gen
 
 /-- tokens `Parser::expect` reports but never consumes (`should_consume_on_expect_failure` is false) -/
-def recoveryTokens : List String := {lean_str_list(keep)}
+def recoveryTokens : List String := {c04_lean_str_list(keep)}
 
 /-- `EXPR_FIRST` -/
-def exprFirst : List String := {lean_str_list(first)}
+def exprFirst : List String := {c04_lean_str_list(first)}
 
 /-- the `p.at(..)` guards of the top-level loop of `file()` in order -/
-def fileGuards : List String := {lean_str_list(guards)}
+def fileGuards : List String := {c04_lean_str_list(guards)}
 
 end Goml.Gen
 """
     write_if_changed("Recovery.lean", text)
+EXTRACTORS = []
+
 
 def main():
     errors = []
@@ -212,7 +214,1121 @@ def main():
         print("\n".join(errors))
         sys.exit(1)
 
-EXTRACTORS = [extract_query_glue, extract_parser_consts, extract_recovery]
+EXTRACTORS += [extract_query_glue, extract_parser_consts, extract_recovery]
+
+# ---------------------------------------------------------------- helpers
+def src(rel):
+    p = os.path.join(REPO, rel)
+    if not os.path.exists(p):
+        raise Exception(f"source file missing: {rel}")
+    return open(p, encoding="utf-8").read()
+
+def block_after(text, header_re, what):
+    """text of the `{ … }` block that follows the first match of header_re (brace matched)"""
+    m = re.search(header_re, text)
+    if not m:
+        raise Exception(f"anchor lost: {what} (/{header_re}/)")
+    i = text.index("{", m.end() - 1) if text[m.end() - 1] != "{" else m.end() - 1
+    depth, j = 0, i
+    while j < len(text):
+        c = text[j]
+        if c == "{":
+            depth += 1
+        elif c == "}":
+            depth -= 1
+            if depth == 0:
+                return text[i + 1:j]
+        j += 1
+    raise Exception(f"unbalanced block: {what}")
+
+def lstr(s):
+    return '"' + s.replace("\\", "\\\\").replace('"', '\\"') + '"'
+
+def lpairs(name, rows, doc):
+    body = ",\n".join("  (" + ", ".join(lstr(x) for x in r) + ")" for r in rows)
+    ty = " × ".join(["String"] * len(rows[0]))
+    return f"/-- {doc} -/\ndef {name} : List ({ty}) := [\n{body}]\n"
+
+HEADER = "/- GENERATED by tools/extract.py from the goml sources on every ./check run — do not edit -/\n"
+
+# ---------------------------------------------------------------- C10: operator map
+def extract_opmap():
+    """goml operator -> Go operator (go/compile.rs) -> printed symbol (go_pprint.rs); source symbols (common-defs)"""
+    cd = src("crates/common-defs/src/lib.rs")
+    comp = src("crates/compiler/src/go/compile.rs")
+    pp = src("crates/compiler/src/pprint/go_pprint.rs")
+    goast = src("crates/compiler/src/go/goast.rs")
+    def enum_variants(text, name):
+        b = block_after(text, r"pub enum " + name + r"\s*\{", f"enum {name}")
+        return [v for v in re.findall(r"^\s*([A-Z][A-Za-z0-9]*)\s*,", b, flags=re.M)]
+    def symbols(text, impl, what):
+        b = block_after(text, r"impl " + impl + r"\s*\{", f"impl {impl}")
+        f = block_after(b, r"pub fn symbol\(self\) -> &'static str\s*\{", f"{impl}::symbol")
+        return re.findall(r"Self::(\w+)\s*=>\s*\"([^\"]*)\"", f)
+    bin_vars, un_vars = enum_variants(cd, "BinaryOp"), enum_variants(cd, "UnaryOp")
+    bin_sym, un_sym = symbols(cd, "BinaryOp", "bin"), symbols(cd, "UnaryOp", "un")
+    if [v for v, _ in bin_sym] != bin_vars or [v for v, _ in un_sym] != un_vars:
+        raise Exception("common-defs: symbol() arms do not cover the operator enums in order")
+    if len(bin_vars) != 12 or len(un_vars) != 2:
+        raise Exception(f"common-defs: expected 12 binary and 2 unary operators, found {len(bin_vars)}/{len(un_vars)}")
+    # go/compile.rs: the two `let go_op = match op { … }` tables
+    ub = block_after(comp, r"anf::CExpr::EUnary \{ op, expr, ty \} => \{\s*let go_op = match op \{", "compile.rs unary operator table")
+    bb = block_after(comp, r"anf::CExpr::EBinary \{ op, lhs, rhs, ty \} => \{\s*let go_op = match op \{", "compile.rs binary operator table")
+    un_map = re.findall(r"common_defs::UnaryOp::(\w+)\s*=>\s*goast::GoUnaryOp::(\w+)", ub)
+    bin_map = re.findall(r"common_defs::BinaryOp::(\w+)\s*=>\s*goast::GoBinaryOp::(\w+)", bb)
+    if sorted(v for v, _ in bin_map) != sorted(bin_vars) or len(bin_map) != len(bin_vars):
+        raise Exception("compile.rs: binary operator table does not have exactly one arm per BinaryOp")
+    if sorted(v for v, _ in un_map) != sorted(un_vars) or len(un_map) != len(un_vars):
+        raise Exception("compile.rs: unary operator table does not have exactly one arm per UnaryOp")
+    if ub.count("=>") != len(un_map) or bb.count("=>") != len(bin_map):
+        raise Exception("compile.rs: operator table has arms of an unexpected shape")
+    go_bin_vars, go_un_vars = enum_variants(goast, "GoBinaryOp"), enum_variants(goast, "GoUnaryOp")
+    def docs(impl):
+        b = block_after(pp, r"impl " + impl + r"\s*\{", f"go_pprint impl {impl}")
+        f = block_after(b, r"fn doc\(&self\) -> RcDoc<'_, \(\)>\s*\{", f"{impl}::doc")
+        rows = re.findall(impl + r"::(\w+)\s*=>\s*RcDoc::text\(\"([^\"]*)\"\)", f)
+        if f.count("=>") != len(rows):
+            raise Exception(f"go_pprint.rs: {impl}::doc has arms of an unexpected shape")
+        return rows
+    go_bin_sym, go_un_sym = docs("GoBinaryOp"), docs("GoUnaryOp")
+    if sorted(v for v, _ in go_bin_sym) != sorted(go_bin_vars) or sorted(v for v, _ in go_un_sym) != sorted(go_un_vars):
+        raise Exception("go_pprint.rs: doc() arms do not cover the Go operator enums")
+    # how a binary / unary expression is laid out by the printer (operand order!)
+    e = block_after(pp, r"impl Expr \{\s*pub fn to_doc", "go_pprint Expr::to_doc")
+    if not re.search(r"Expr::UnaryOp \{ op, expr, ty: _ \} => op\.doc\(\)\.append\(expr\.to_doc\(goenv\)\)", e):
+        raise Exception("go_pprint.rs: UnaryOp is no longer printed as <op><expr>")
+    m = re.search(r"Expr::BinaryOp \{\s*op,\s*lhs,\s*rhs,\s*ty: _,\s*\} => lhs\s*\.to_doc\(goenv\)\s*\.append\(RcDoc::space\(\)\)\s*"
+                  r"\.append\(op\.doc\(\)\)\s*\.append\(RcDoc::space\(\)\)\s*\.append\(rhs\.to_doc\(goenv\)\)", e)
+    if not m:
+        raise Exception("go_pprint.rs: BinaryOp is no longer printed as <lhs> <op> <rhs>")
+    out = HEADER + "namespace Goml.Gen.OpMap\n\n"
+    out += lpairs("srcBin", bin_sym, "common-defs BinaryOp: (variant, source symbol), in declaration order")
+    out += lpairs("srcUn", un_sym, "common-defs UnaryOp: (variant, source symbol)")
+    out += lpairs("binMap", bin_map, "go/compile.rs `anf::CExpr::EBinary`: (goml BinaryOp, goast::GoBinaryOp)")
+    out += lpairs("unMap", un_map, "go/compile.rs `anf::CExpr::EUnary`: (goml UnaryOp, goast::GoUnaryOp)")
+    out += lpairs("goBinSym", go_bin_sym, "go_pprint.rs GoBinaryOp::doc: (variant, printed Go operator); printed as `lhs op rhs`")
+    out += lpairs("goUnSym", go_un_sym, "go_pprint.rs GoUnaryOp::doc: (variant, printed Go operator); printed as `op expr`")
+    out += "\nend Goml.Gen.OpMap\n"
+    write_if_changed("OpMap.lean", out)
+
+# ---------------------------------------------------------------- C10: *_to_string helpers
+def extract_tostring():
+    """for every numeric `*_to_string` runtime helper: parameter Go type and Sprintf verb (go/runtime.rs)"""
+    rt = src("crates/compiler/src/go/runtime.rs")
+    m = re.search(r"fn to_string_fn\(([^)]*)\) -> goast::Fn", rt)
+    if not m:
+        raise Exception("runtime.rs: to_string_fn is gone")
+    params = [p.strip().split(":")[0].strip() for p in m.group(1).split(",") if p.strip()]
+    body = block_after(rt, r"fn to_string_fn\([^)]*\) -> goast::Fn\s*\{", "to_string_fn body")
+    if "fmt.Sprintf" not in body:
+        raise Exception("runtime.rs: to_string_fn no longer calls fmt.Sprintf")
+    args = re.search(r"args:\s*vec!\[\s*goast::Expr::String\s*\{\s*value:\s*([^,]+?)\.to_string\(\),", body)
+    if not args:
+        raise Exception("runtime.rs: to_string_fn: first Sprintf argument is not a string literal node")
+    fmt_expr = args.group(1).strip()
+    if params[:2] != ["name", "ty"]:
+        raise Exception(f"runtime.rs: to_string_fn parameters changed: {params}")
+    rows = []
+    for fn, call in re.findall(r"fn (\w+_to_string)\(\) -> goast::Fn \{\s*to_string_fn\(([^;{}]*?)\)\s*\}", rt):
+        a = [x.strip() for x in call.split(",") if x.strip()]
+        name = a[0].strip('"')
+        if name != fn:
+            raise Exception(f"runtime.rs: {fn} builds a helper named {name}")
+        gt = re.fullmatch(r"goty::GoType::(\w+)", a[1])
+        if not gt:
+            raise Exception(f"runtime.rs: {fn}: unexpected type argument {a[1]}")
+        if fmt_expr.startswith('"'):
+            verb = fmt_expr.strip('"')
+        else:
+            if fmt_expr not in params:
+                raise Exception(f"runtime.rs: to_string_fn format `{fmt_expr}` is neither a literal nor a parameter")
+            k = params.index(fmt_expr)
+            if k >= len(a) or not re.fullmatch(r'"[^"]*"', a[k]):
+                raise Exception(f"runtime.rs: {fn}: format argument is not a string literal")
+            verb = a[k].strip('"')
+        rows.append((fn, gt.group(1), verb))
+    if len(rows) != 10:
+        raise Exception(f"runtime.rs: expected 10 numeric *_to_string helpers built by to_string_fn, found {len(rows)}")
+    reg = block_after(rt, r"pub fn make_runtime\(\) -> Vec<goast::Item>\s*\{", "make_runtime")
+    for fn, _, _ in rows:
+        if f"Item::Fn({fn}())" not in reg:
+            raise Exception(f"runtime.rs: {fn} is not registered in make_runtime")
+    out = HEADER + "namespace Goml.Gen.ToString\n\n"
+    out += lpairs("helpers", rows, "go/runtime.rs: (helper name, goty::GoType of its parameter, fmt.Sprintf verb)")
+    out += "\nend Goml.Gen.ToString\n"
+    write_if_changed("ToString.lean", out)
+
+# ---------------------------------------------------------------- C10: numeric type tables
+def extract_numtypes():
+    """per numeric type: literal parser + Prim variant (check.rs), Rust carrier type (common.rs), Go type and its spelling,
+    literal suffix forms (lexer, lower.rs, check.rs)"""
+    chk = src("crates/compiler/src/typer/check.rs")
+    com = src("crates/compiler/src/common.rs")
+    goast = src("crates/compiler/src/go/goast.rs")
+    pp = src("crates/compiler/src/pprint/go_pprint.rs")
+    lex = src("crates/lexer/src/lib.rs")
+    low = src("crates/ast/src/lower.rs")
+    tb = src("crates/compiler/src/typer/tast_builder.rs")
+    b = block_after(chk, r"fn parse_integer_literal_with_ty\([^)]*\) -> Option<Prim>\s*\{", "parse_integer_literal_with_ty")
+    int_rows = re.findall(r"tast::Ty::(\w+)\s*=>\s*self\s*\.parse_(signed|unsigned)_integer\(diagnostics, literal, \"(\w+)\"\)\s*"
+                          r"\.map\(\|value\| Prim::(\w+) \{ value \}\)", b)
+    if len(int_rows) != 8 or b.count("=>") != 9:
+        raise Exception(f"check.rs: parse_integer_literal_with_ty: expected 8 integer arms + default, found {len(int_rows)}")
+    # the two parsers: str::parse::<T>, the unsigned one first refuses a leading '-'
+    ps = block_after(chk, r"fn parse_signed_integer<T>\([^)]*\) -> Option<T>\s*where[^{]*\{", "parse_signed_integer")
+    pu = block_after(chk, r"fn parse_unsigned_integer<T>\([^)]*\) -> Option<T>\s*where[^{]*\{", "parse_unsigned_integer")
+    norm = lambda t: re.sub(r"\s+", " ", t).strip()
+    if "literal.parse::<T>()" not in ps or "starts_with" in ps:
+        raise Exception("check.rs: parse_signed_integer is no longer a plain literal.parse::<T>()")
+    if not norm(pu).startswith("if literal.starts_with('-') {") or "literal.parse::<T>()" not in pu:
+        raise Exception("check.rs: parse_unsigned_integer no longer is `refuse leading '-'; literal.parse::<T>()`")
+    for nm, t in (("signed", ps), ("unsigned", pu)):
+        if norm(t).count("IntErrorKind::Empty | IntErrorKind::InvalidDigit => { self.report_invalid_integer_literal(diagnostics, literal); }") != 1:
+            raise Exception(f"check.rs: parse_{nm}_integer: error classification changed")
+    # tast_builder re-parses the text (this is the value that reaches Core)
+    tb_rows = re.findall(r"hir::Expr::E(\w+) \{ value \} => tast::Expr::EPrim \{\s*value: Prim::(\w+) \{\s*value: parse_(signed|unsigned)\(&value\)\.unwrap_or\(0\),\s*\},\s*ty: tast::Ty::(\w+),", tb)
+    if len(tb_rows) != 9:
+        raise Exception(f"tast_builder.rs: expected 9 integer literal arms (EInt + 8 suffixed), found {len(tb_rows)}")
+    tbs = norm(block_after(tb, r"fn parse_signed<T>\(s: &str\) -> Option<T>\s*where[^{]*\{", "tast_builder parse_signed"))
+    tbu = norm(block_after(tb, r"fn parse_unsigned<T>\(s: &str\) -> Option<T>\s*where[^{]*\{", "tast_builder parse_unsigned"))
+    if tbs != "s.parse().ok()" or tbu != "if s.starts_with('-') { return None; } s.parse().ok()":
+        raise Exception("tast_builder.rs: parse_signed/parse_unsigned changed")
+    prim = block_after(com, r"pub enum Prim\s*\{", "enum Prim")
+    prim_rows = re.findall(r"(\w+) \{ value: ([\w()]+) \}", prim)
+    prim_map = dict(prim_rows)
+    gomap = block_after(goast, r"pub fn tast_ty_to_go_type\(ty: &tast::Ty\) -> goty::GoType\s*\{", "tast_ty_to_go_type")
+    go_rows = re.findall(r"tast::Ty::(\w+)\s*=>\s*goty::GoType::(\w+),", gomap)
+    gn = block_after(pp, r"fn go_type_name\(ty: &GoType\) -> String\s*\{", "go_type_name")
+    gn_rows = re.findall(r"GoType::(\w+)\s*=>\s*\"([^\"]+)\"\.to_string\(\)", gn)
+    # literal forms: lexer regex -> token; lower.rs: cst node, stripped suffix, ast node; check.rs: hir node -> type
+    lex_rows = re.findall(r"#\[regex\(r?\"([^\"]+)\"(?:, priority = (\d+))?\)\]\s*(\w*(?:Lit|Float|Int))\s*,", lex)
+    lex_rows = [(tok, rx, pr or "1") for rx, pr, tok in lex_rows if tok in
+                ("Int", "Float", "Int8Lit", "Int16Lit", "Int32Lit", "Int64Lit", "UInt8Lit", "UInt16Lit", "UInt32Lit", "UInt64Lit", "Float32Lit", "Float64Lit")]
+    if len(lex_rows) != 12:
+        raise Exception(f"lexer: expected 12 numeric literal token rules, found {len(lex_rows)}")
+    low_rows = re.findall(r"cst::Expr::(\w+)\(it\) => \{(?:(?!cst::Expr::).)*?strip_suffix\(\"(\w+)\"\)(?:(?!cst::Expr::).)*?Some\(ast::Expr::(\w+) \{ value, astptr \}\)", low, flags=re.S)
+    if len(low_rows) != 10:
+        raise Exception(f"lower.rs: expected 10 suffixed literal expression forms, found {len(low_rows)}")
+    inf = block_after(chk, r"pub fn infer_expr\(", "infer_expr")
+    ty_rows = re.findall(r"hir::Expr::(E(?:U?Int\d*|Float\d*)) \{ value \} => \{\s*(?:self\.ensure_float_literal_fits\([^;]*;\s*)?let ty = tast::Ty::(\w+);", inf)
+    if len(ty_rows) != 12:
+        raise Exception(f"check.rs: infer_expr: expected 12 numeric literal arms, found {len(ty_rows)}")
+    # ---- literal patterns: lower.rs (suffix -> ast node), check.rs check_pat (node -> literal type; unsuffixed takes the
+    # scrutinee's integer type), tast_builder.rs (value rebuilt: suffixed arms, `int_prim_for_ty` for the unsuffixed one)
+    pat_low = re.findall(r"cst::Pattern::(\w+)\(it\) => \{(?:(?!cst::Pattern::).)*?strip_suffix\(\"(\w+)\"\)(?:(?!cst::Pattern::).)*?Some\(ast::Pat::(\w+) \{ value, astptr \}\)", low, flags=re.S)
+    if len(pat_low) != 8 or not re.search(r"cst::Pattern::IntPat\(it\) => Some\(ast::Pat::PInt \{\s*value: it\.value\(\)\?\.to_string\(\),", low):
+        raise Exception(f"lower.rs: expected IntPat + 8 suffixed integer pattern forms, found {len(pat_low)}")
+    cp = block_after(chk, r"fn check_pat\(", "check_pat")
+    pat_ty = re.findall(r"hir::Pat::(PU?Int\d+) \{ value \} => \{?\s*self\.check_pat_typed_int\(diagnostics, &value, &tast::Ty::(\w+), ty\)", cp)
+    if len(pat_ty) != 8 or "hir::Pat::PInt { value } => self.check_pat_int(diagnostics, &value, ty)," not in cp:
+        raise Exception(f"check.rs: check_pat: expected PInt + 8 typed integer pattern arms, found {len(pat_ty)}")
+    cpi = norm(block_after(chk, r"fn check_pat_int\([^)]*\) -> tast::Pat\s*\{", "check_pat_int"))
+    if not cpi.startswith("let target_ty = integer_literal_target(ty).unwrap_or(tast::Ty::TInt32); let prim = self .parse_integer_literal_with_ty(diagnostics, value, &target_ty)"):
+        raise Exception("check.rs: check_pat_int no longer parses the literal at the scrutinee's integer type")
+    cpt = norm(block_after(chk, r"fn check_pat_typed_int\([^)]*\) -> tast::Pat\s*\{", "check_pat_typed_int"))
+    if not cpt.startswith("let prim = self .parse_integer_literal_with_ty(diagnostics, value, literal_ty)"):
+        raise Exception("check.rs: check_pat_typed_int no longer parses the literal at the suffix type")
+    tb_pat = re.findall(r"hir::Pat::(PU?Int\d+) \{ value \} => tast::Pat::PPrim \{\s*value: Prim::(\w+) \{\s*value: parse_(signed|unsigned)\(&value\)\.unwrap_or\(0\),\s*\},\s*"
+                        r"ty: results\.pat_ty\(pat_id\)\.cloned\(\)\.unwrap_or\(tast::Ty::(\w+)\),", tb)
+    if len(tb_pat) != 8:
+        raise Exception(f"tast_builder.rs: expected 8 suffixed integer pattern arms, found {len(tb_pat)}")
+    m = re.search(r"hir::Pat::PInt \{ value \} => (.*?)\n        hir::Pat::PInt8", tb, flags=re.S)
+    if not m:
+        raise Exception("tast_builder.rs: PInt pattern arm not found")
+    pint = norm(m.group(1))
+    if "int_prim_for_ty(&value, &ty)" in pint and "let ty = results.pat_ty(pat_id).cloned().unwrap_or(tast::Ty::TInt32);" in pint:
+        ip = block_after(tb, r"fn int_prim_for_ty\(literal: &str, ty: &tast::Ty\) -> Prim\s*\{", "int_prim_for_ty")
+        unsuf = re.findall(r"(tast::Ty::\w+|_) => Prim::(\w+) \{\s*value: parse_(signed|unsigned)\(literal\)\.unwrap_or\(0\),\s*\},", ip)
+        unsuf = [(t.replace("tast::Ty::", ""), pv, k) for t, pv, k in unsuf]
+        if len(unsuf) != 8 or ip.count("=>") != 8 or unsuf[-1][0] != "_":
+            raise Exception(f"tast_builder.rs: int_prim_for_ty: expected 7 typed arms + default, found {len(unsuf)}")
+    elif re.fullmatch(r"tast::Pat::PPrim \{ value: Prim::Int32 \{ value: parse_signed\(&value\)\.unwrap_or\(0\), \}, ty: results\.pat_ty\(pat_id\)\.cloned\(\)\.unwrap_or\(tast::Ty::TInt32\), \},", pint):
+        unsuf = [("_", "Int32", "signed")]   # always an int32 Prim, whatever the pattern's type
+    else:
+        raise Exception("tast_builder.rs: PInt pattern arm has an unknown shape")
+    pat_forms = []
+    for _cst, suf, node in pat_low:
+        if node not in dict(pat_ty):
+            raise Exception(f"check.rs: no check_pat arm for {node}")
+        pat_forms.append((suf, node, dict(pat_ty)[node]))
+    rows = []
+    for ty, kind, diag, pv in int_rows:
+        if pv not in prim_map:
+            raise Exception(f"common.rs: Prim::{pv} missing")
+        go = dict(go_rows).get(ty)
+        goname = dict(gn_rows).get(go)
+        if not go or not goname:
+            raise Exception(f"no Go type for {ty}")
+        rows.append((ty, kind, diag, pv, prim_map[pv], go, goname))
+    frows = []
+    for ty, pv in (("TFloat32", "Float32"), ("TFloat64", "Float64")):
+        go = dict(go_rows).get(ty); goname = dict(gn_rows).get(go)
+        if pv not in prim_map or not go or not goname:
+            raise Exception(f"float type {ty}: table entry missing")
+        frows.append((ty, pv, prim_map[pv], go, goname))
+    forms = [("", "EInt", dict(ty_rows).get("EInt", "?")), ("", "EFloat", dict(ty_rows).get("EFloat", "?"))]
+    for _cst, suf, astn in low_rows:
+        if astn not in dict(ty_rows):
+            raise Exception(f"check.rs: no infer_expr arm for {astn}")
+        forms.append((suf, astn, dict(ty_rows)[astn]))
+    out = HEADER + "namespace Goml.Gen.NumTypes\n\n"
+    out += lpairs("intTypes", rows, "(tast::Ty, literal parser kind in check.rs, name in diagnostics, Prim variant, Rust carrier type of that Prim, goty::GoType, Go spelling)")
+    out += lpairs("floatTypes", frows, "(tast::Ty, Prim variant, Rust carrier type, goty::GoType, Go spelling)")
+    out += lpairs("builderInt", tb_rows, "tast_builder.rs: (hir literal node, Prim variant built, parser kind, tast::Ty) — the value that reaches Core")
+    out += lpairs("litForms", forms, "(literal suffix, ast/hir node, tast::Ty given by infer_expr); empty suffix = unsuffixed")
+    out += lpairs("lexRules", lex_rows, "lexer: (token, regex, priority)")
+    out += lpairs("patForms", pat_forms, "suffixed integer literal patterns: (suffix, ast/hir node, literal tast::Ty in check_pat); an unsuffixed one takes the scrutinee type")
+    out += lpairs("builderPat", tb_pat, "tast_builder.rs suffixed patterns: (hir node, Prim variant built, parser kind, default tast::Ty)")
+    out += lpairs("builderPatUnsuffixed", unsuf, "tast_builder.rs unsuffixed pattern: (pattern tast::Ty or _ for any other, Prim variant built, parser kind)")
+    out += "\nend Goml.Gen.NumTypes\n"
+    write_if_changed("NumTypes.lean", out)
+
+EXTRACTORS += [extract_opmap, extract_tostring, extract_numtypes]
+# ---------------------------------------------------------------- C11: Pratt binding powers
+def _bp_fn_body(src, name):
+    m = re.search(r"fn " + name + r"\(op: TokenKind\) -> ([^\{]+)\{\s*match op \{(.*?)\n    \}\n\}", src, flags=re.S)
+    if not m:
+        raise RuntimeError(f"anchor lost: fn {name}(op: TokenKind) {{ match op {{ … }} }} in crates/parser/src/expr.rs")
+    return m.group(1).strip(), m.group(2)
+
+def _t_macro(lexsrc):
+    """T![spelling] -> TokenKind variant name, read from the macro in crates/lexer/src/lib.rs"""
+    out = {}
+    for sp, name in re.findall(r"^\s*\[(.+?)\] => \{ \$crate::TokenKind::(\w+) \};", lexsrc, flags=re.M):
+        out[sp.strip()] = name
+    if len(out) < 60:
+        raise RuntimeError("anchor lost: macro_rules! T in crates/lexer/src/lib.rs")
+    return out
+
+def _arms(body, tmac, value_re, fname):
+    rows = []
+    lines = [l.strip() for l in body.strip().splitlines() if l.strip()]
+    if not lines or lines[-1] != "_ => None,":
+        raise RuntimeError(f"{fname}: last arm is not `_ => None,`")
+    for l in lines[:-1]:
+        m = re.fullmatch(r"((?:T!\[[^\]]+\](?:\s*\|\s*)?)+)\s*=>\s*Some\(" + value_re + r"\),", l)
+        if not m:
+            raise RuntimeError(f"{fname}: unexpected arm shape: {l}")
+        toks = re.findall(r"T!\[([^\]]+)\]", m.group(1))
+        for t in toks:
+            if t not in tmac:
+                raise RuntimeError(f"{fname}: T![{t}] not in the T! macro")
+            rows.append((tmac[t], t.strip("'"), tuple(int(x) for x in m.groups()[1:])))
+    return rows
+
+def extract_binding_power():
+    src = open(os.path.join(REPO, "crates/parser/src/expr.rs")).read()
+    lexsrc = open(os.path.join(REPO, "crates/lexer/src/lib.rs")).read()
+    tmac = _t_macro(lexsrc)
+    rt, body = _bp_fn_body(src, "postfix_binding_power")
+    if rt != "Option<(u8, ())>":
+        raise RuntimeError("postfix_binding_power: return type changed: " + rt)
+    post = _arms(body, tmac, r"\((\d+), \(\)\)", "postfix_binding_power")
+    rt, body = _bp_fn_body(src, "prefix_binding_power")
+    if rt != "Option<u8>":
+        raise RuntimeError("prefix_binding_power: return type changed: " + rt)
+    pre = _arms(body, tmac, r"(\d+)", "prefix_binding_power")
+    rt, body = _bp_fn_body(src, "infix_binding_power")
+    if rt != "Option<(u8, u8)>":
+        raise RuntimeError("infix_binding_power: return type changed: " + rt)
+    inf = _arms(body, tmac, r"\((\d+), (\d+)\)", "infix_binding_power")
+    # the Pratt loop itself must still consult the three tables in the modelled order
+    loop = re.search(r"fn expr_bp\(p: &mut Parser, min_bp: u8\).*?\n\}\n", src, flags=re.S)
+    if not loop:
+        raise RuntimeError("anchor lost: fn expr_bp")
+    lp = loop.group(0)
+    order = [lp.find("prefix_binding_power(p.peek())"), lp.find("postfix_binding_power(op)"), lp.find("infix_binding_power(op)")]
+    if -1 in order or order != sorted(order) or lp.count("if l_bp < min_bp") != 2:
+        raise RuntimeError("expr_bp: the loop no longer has the shape prefix / postfix(l_bp < min_bp) / infix(l_bp < min_bp)")
+    names = []
+    for n, _, _ in inf + pre + post:
+        if n not in names:
+            names.append(n)
+    expected = ["OrOr", "AndAnd", "EqEq", "NotEq", "Less", "Greater", "LessEq", "GreaterEq", "Plus", "Minus",
+                "Star", "Slash", "Dot", "Bang", "LParen"]
+    if sorted(names) != sorted(expected):
+        raise RuntimeError(f"binding-power tables mention tokens {names}, the model (Model/Pratt.lean) was written for {expected}: extend the model")
+    names = expected  # canonical constructor order, independent of the order of the match arms
+    spell = {}
+    for n, sp, _ in inf + pre + post:
+        spell[n] = sp
+    def fn(name, ty, rows, fmt):
+        out = [f"def {name} : TK → {ty}"]
+        for n, _, v in sorted(rows, key=lambda r: names.index(r[0])):
+            out.append(f"  | .{n} => some {fmt(v)}")
+        if len(rows) < len(names):
+            out.append("  | _ => none")
+        return "\n".join(out)
+    text = "\n".join([
+        "/- GENERATED by tools/extract.py from crates/parser/src/expr.rs",
+        "   (postfix_binding_power, prefix_binding_power, infix_binding_power) — do not edit. -/",
+        "namespace Goml.Gen.BindingPower",
+        "",
+        "/-- the token kinds mentioned by the three binding-power functions, in source order -/",
+        "inductive TK where",
+        "  " + " ".join("| " + n for n in names),
+        "  deriving DecidableEq, Repr, Inhabited",
+        "",
+        "def TK.all : List TK := [" + ", ".join("." + n for n in names) + "]",
+        "",
+        "def TK.spelling : TK → String",
+        "\n".join(f"  | .{n} => \"{spell[n]}\"" for n in names),
+        "",
+        fn("infixBp", "Option (Nat × Nat)", inf, lambda v: f"({v[0]}, {v[1]})"),
+        "",
+        fn("prefixBp", "Option Nat", pre, lambda v: f"{v[0]}"),
+        "",
+        fn("postfixBp", "Option Nat", post, lambda v: f"{v[0]}"),
+        "",
+        "end Goml.Gen.BindingPower",
+        ""])
+    write_if_changed("BindingPower.lean", text)
+
+EXTRACTORS += [extract_binding_power]
+# ---------------------------------------------------------------------------
+# C12: lexer rules (crates/lexer/src/lib.rs) and syntax kinds (crates/parser/src/syntax.rs)
+
+def _rust_str_lit(text, i):
+    """parse a Rust string literal starting at text[i]; returns (value, next index)"""
+    m = re.compile(r'r(#*)"').match(text, i)
+    if m:
+        close = '"' + m.group(1)
+        j = text.index(close, m.end())
+        return text[m.end():j], j + len(close)
+    if text[i] != '"':
+        raise ValueError(f"expected a string literal at: {text[i:i+30]!r}")
+    out, j = [], i + 1
+    esc = {"n": "\n", "t": "\t", "r": "\r", "\\": "\\", '"': '"', "0": "\0", "'": "'"}
+    while text[j] != '"':
+        if text[j] == "\\":
+            if text[j + 1] not in esc:
+                raise ValueError(f"unsupported escape in Rust literal: {text[j:j+4]!r}")
+            out.append(esc[text[j + 1]]); j += 2
+        else:
+            out.append(text[j]); j += 1
+    return "".join(out), j + 1
+
+
+class _Rx:
+    """parser for the regex subset used by the lexer; lowers the way logos' Mir does
+    (x+ = x x*, x{n} = n copies, '.' = [^\\n]); anything else raises"""
+    def __init__(self, src):
+        self.s, self.i = src, 0
+    def peek(self):
+        return self.s[self.i] if self.i < len(self.s) else None
+    def parse(self):
+        r = self.alt()
+        if self.i != len(self.s):
+            raise ValueError(f"regex: unexpected {self.s[self.i:]!r} in {self.s!r}")
+        return r
+    def alt(self):
+        items = [self.concat()]
+        while self.peek() == "|":
+            self.i += 1
+            items.append(self.concat())
+        r = items[-1]
+        for it in reversed(items[:-1]):
+            r = ("alt", it, r)
+        return r
+    def concat(self):
+        items = []
+        while self.peek() is not None and self.peek() not in "|)":
+            items.append(self.repeat())
+        if not items:
+            return ("eps",)
+        r = items[-1]
+        for it in reversed(items[:-1]):
+            r = ("seq", it, r)
+        return r
+    def repeat(self):
+        a = self.atom()
+        while self.peek() is not None and self.peek() in "*+{?":
+            c = self.peek()
+            if c == "*":
+                self.i += 1; a = ("star", a)
+            elif c == "+":
+                self.i += 1; a = ("seq", a, ("star", a))
+            elif c == "{":
+                m = re.compile(r"\{(\d+)\}").match(self.s, self.i)
+                if not m or int(m.group(1)) < 1:
+                    raise ValueError(f"regex: unsupported repetition in {self.s!r}")
+                self.i = m.end()
+                n, one = int(m.group(1)), a
+                for _ in range(n - 1):
+                    a = ("seq", one, a)
+            else:
+                raise ValueError(f"regex: unsupported operator {c!r} in {self.s!r}")
+            if self.peek() == "?":
+                raise ValueError("regex: non-greedy repetition unsupported")
+        return a
+    def escape(self, in_class):
+        # self.s[self.i] == '\\'
+        c = self.s[self.i + 1]
+        if c == "x":
+            v = int(self.s[self.i + 2:self.i + 4], 16); self.i += 4; return v
+        table = {"n": 10, "t": 9, "r": 13, "\\": 92, ".": 46, '"': 34, "/": 47, "-": 45, "[": 91, "]": 93,
+                 "(": 40, ")": 41, "{": 123, "}": 125, "*": 42, "+": 43, "?": 63, "|": 124, "^": 94, "$": 36}
+        if c not in table:
+            raise ValueError(f"regex: unsupported escape \\{c} in {self.s!r}")
+        self.i += 2
+        return table[c]
+    def atom(self):
+        c = self.peek()
+        if c == "(":
+            if self.s[self.i + 1] == "?":
+                raise ValueError("regex: group flags unsupported")
+            self.i += 1
+            r = self.alt()
+            if self.peek() != ")":
+                raise ValueError(f"regex: unbalanced group in {self.s!r}")
+            self.i += 1
+            return r
+        if c == "[":
+            return self.klass()
+        if c == ".":
+            self.i += 1
+            return ("cls", True, [(10, 10)])
+        if c == "\\":
+            return ("chr", self.escape(False))
+        if c in "^$":
+            raise ValueError("regex: anchors unsupported")
+        self.i += 1
+        return ("chr", ord(c))
+    def klass(self):
+        self.i += 1
+        neg = False
+        if self.peek() == "^":
+            neg = True; self.i += 1
+        rs = []
+        def one():
+            if self.peek() == "\\":
+                return self.escape(True)
+            if self.peek() == "[":
+                raise ValueError("regex: nested classes unsupported")
+            v = ord(self.peek()); self.i += 1; return v
+        while self.peek() != "]":
+            if self.peek() is None:
+                raise ValueError(f"regex: unterminated class in {self.s!r}")
+            lo = one()
+            if self.peek() == "-" and self.s[self.i + 1] != "]":
+                self.i += 1
+                hi = one()
+                if hi < lo:
+                    raise ValueError("regex: bad range")
+                rs.append((lo, hi))
+            else:
+                rs.append((lo, lo))
+        self.i += 1
+        return ("cls", neg, rs)
+
+
+def _re_lean(r):
+    t = r[0]
+    if t == "eps":
+        return ".eps"
+    if t == "chr":
+        return f"(.chr {r[1]})"
+    if t == "cls":
+        return "(.cls %s [%s])" % ("true" if r[1] else "false", ", ".join(f"({a}, {b})" for a, b in r[2]))
+    if t == "star":
+        return f"(.star {_re_lean(r[1])})"
+    return f"(.{t} {_re_lean(r[1])} {_re_lean(r[2])})"
+
+
+def _tok_lean_str(s):
+    out = []
+    for ch in s:
+        if ch == "\\":
+            out.append("\\\\")
+        elif ch == '"':
+            out.append('\\"')
+        elif ch == "\n":
+            out.append("\\n")
+        elif ch == "\t":
+            out.append("\\t")
+        elif ch == "\r":
+            out.append("\\r")
+        elif ord(ch) < 32 or ord(ch) == 127:
+            out.append("\\x%02x" % ord(ch))
+        else:
+            out.append(ch)
+    return '"' + "".join(out) + '"'
+
+
+def _enum_variants_with_attrs(body):
+    """[(variant, [attribute text…])] of a fieldless enum body"""
+    out, attrs, i = [], [], 0
+    while i < len(body):
+        if body[i].isspace() or body[i] == ",":
+            i += 1; continue
+        if body.startswith("//", i):          # comment between variants
+            j = body.find("\n", i)
+            i = len(body) if j < 0 else j; continue
+        if body.startswith("#[", i):
+            # attribute: scan to the matching ']' skipping string literals
+            j, depth = i + 2, 1
+            while depth:
+                if body[j] == '"' or re.compile(r'r#*"').match(body, j):
+                    _, j = _rust_str_lit(body, j); continue
+                if body[j] == "[":
+                    depth += 1
+                elif body[j] == "]":
+                    depth -= 1
+                j += 1
+            attrs.append(body[i + 2:j - 1]); i = j; continue
+        m = re.compile(r"[A-Za-z_][A-Za-z_0-9]*").match(body, i)
+        if not m:
+            raise ValueError(f"enum body: cannot parse at {body[i:i+40]!r}")
+        out.append((m.group(0), attrs)); attrs = []; i = m.end()
+    return out
+
+
+def extract_tokens():
+    lex = open(os.path.join(REPO, "crates/lexer/src/lib.rs")).read()
+    syn = open(os.path.join(REPO, "crates/parser/src/syntax.rs")).read()
+    m = re.search(r"#\[derive\(([^)]*)\)\]\s*pub enum TokenKind \{(.*?)\n\}", lex, re.S)
+    if not m or "Logos" not in m.group(1):
+        raise ValueError("lexer/src/lib.rs: `#[derive(.. Logos)] pub enum TokenKind` not found")
+    if re.search(r"#\[logos\(", lex):
+        raise ValueError("lexer/src/lib.rs: an enum-level #[logos(..)] attribute (skip/subpattern/…) appeared; the model does not know it")
+    variants = _enum_variants_with_attrs(m.group(2))
+    names = [v for v, _ in variants]
+    if len(set(names)) != len(names) or names[-2:] != ["Error", "Eof"]:
+        raise ValueError("TokenKind: expected distinct variants ending in Error, Eof")
+    literals, regexes = [], []
+    for idx, (v, attrs) in enumerate(variants):
+        if v in ("Error", "Eof"):
+            if attrs:
+                raise ValueError(f"TokenKind::{v} now has a lexer rule")
+            continue
+        if len(attrs) != 1:
+            raise ValueError(f"TokenKind::{v}: expected exactly one #[token]/#[regex] attribute, found {attrs}")
+        a = attrs[0].strip()
+        mm = re.match(r"(token|regex)\(\s*", a)
+        if not mm or not a.endswith(")"):
+            raise ValueError(f"TokenKind::{v}: unknown attribute {a!r}")
+        lit, j = _rust_str_lit(a, mm.end())
+        rest = [x.strip() for x in a[j:-1].split(",") if x.strip()]
+        prio, cb = None, None
+        for x in rest:
+            pm = re.fullmatch(r"priority\s*=\s*(\d+)", x)
+            if pm:
+                prio = int(pm.group(1))
+            elif re.fullmatch(r"[A-Za-z_][A-Za-z_0-9]*", x):
+                cb = x
+            else:
+                raise ValueError(f"TokenKind::{v}: unknown rule option {x!r}")
+        if mm.group(1) == "token":
+            if cb or prio is not None or not lit:
+                raise ValueError(f"TokenKind::{v}: #[token] with options/empty literal is not modelled")
+            literals.append((idx, v, lit))
+        else:
+            regexes.append((idx, v, lit, _Rx(lit).parse(), prio, cb))
+    cbs = sorted({r[5] for r in regexes if r[5]})
+    if cbs != ["lex_multiline_str"]:
+        raise ValueError(f"lexer callbacks changed: {cbs} (the model transcribes lex_multiline_str only)")
+    if not re.search(r"fn lex_multiline_str\(lex: &mut logos::Lexer<TokenKind>\) -> Option<\(\)>", lex):
+        raise ValueError("lex_multiline_str: signature changed")
+    if "kind: TokenKind::Error," not in lex or "if let Ok(kind) = kind" not in lex:
+        raise ValueError("Lexer::next no longer maps a logos error to TokenKind::Error")
+    tm = re.search(r"pub fn is_trivia\(self\) -> bool \{\s*matches!\(self,([^)]*)\)\s*\}", lex)
+    if not tm:
+        raise ValueError("TokenKind::is_trivia: shape changed")
+    trivia = [x.strip().replace("Self::", "") for x in tm.group(1).split("|")]
+    for t in trivia:
+        if t not in names:
+            raise ValueError(f"is_trivia mentions unknown kind {t}")
+    sm = re.search(r"#\[repr\(u16\)\]\s*pub enum MySyntaxKind \{(.*?)\n\}", syn, re.S)
+    if not sm:
+        raise ValueError("parser/src/syntax.rs: `#[repr(u16)] pub enum MySyntaxKind` not found")
+    skinds = [v for v, a in _enum_variants_with_attrs(sm.group(1))]
+    if "rowan::SyntaxKind(self as u16)" not in syn or "Self(kind as u16)" not in syn:
+        raise ValueError("syntax.rs: kinds are no longer converted by `as u16`")
+    bm = re.search(r"assert!\(raw\.0 <= MySyntaxKind::(\w+) as u16\)", syn)
+    if not bm:
+        raise ValueError("syntax.rs: kind_from_raw bound not found")
+    L = ["-- GENERATED by tools/extract.py from crates/lexer/src/lib.rs and crates/parser/src/syntax.rs; do not edit",
+         "import GomlVerif.Model.Regex",
+         "namespace Goml.Gen.Tokens",
+         "open Goml.Lex",
+         "",
+         "/-- `TokenKind` variants in declaration order; the discriminant (`kind as u16`) is the index -/",
+         "def kindNames : List String := [" + ", ".join(_tok_lean_str(n) for n in names) + "]",
+         "",
+         "/-- `MySyntaxKind` variants in declaration order (`#[repr(u16)]`) -/",
+         "def syntaxKindNames : List String := [" + ", ".join(_tok_lean_str(n) for n in skinds) + "]",
+         "",
+         f"/-- the variant `kind_from_raw` uses as its upper bound -/",
+         f"def kindFromRawBound : String := {_tok_lean_str(bm.group(1))}",
+         "",
+         f"def errorKind : Nat := {names.index('Error')}",
+         f"def eofKind : Nat := {names.index('Eof')}",
+         "/-- `MySyntaxKind::TombStone as u16` (an `Open` event that was never completed) -/",
+         f"def tombStoneKind : Nat := {skinds.index('TombStone')}",
+         "/-- `TokenKind::is_trivia` -/",
+         "def triviaKinds : List Nat := [" + ", ".join(str(names.index(t)) for t in trivia) + "]",
+         "",
+         "/-- `#[token(\"…\")]` rules: (kind, literal) in declaration order -/",
+         "def literals : List (Nat × String) := ["]
+    L += ["  " + ",\n  ".join(f"({i}, {_tok_lean_str(lit)})" for i, _, lit in literals) + "]", "",
+          "/-- `#[regex(…)]` rules in declaration order -/",
+          "def regexes : List RegexRule := ["]
+    rl = []
+    for i, v, srcs, r, prio, cb in regexes:
+        rl.append("  { kind := %d, name := %s, src := %s,\n    re := %s,\n    prio := %s, callback := %s }" % (
+            i, _tok_lean_str(v), _tok_lean_str(srcs), _re_lean(r),
+            "none" if prio is None else f"some {prio}", "none" if cb is None else "some " + _tok_lean_str(cb)))
+    L += [",\n".join(rl) + "]", "", "end Goml.Gen.Tokens", ""]
+    write_if_changed("Tokens.lean", "\n".join(L))
+
+EXTRACTORS += [extract_tokens]
+# ---------------------------------------------------------------- C19/C17: name encoders
+def _src(rel):
+    return open(os.path.join(REPO, rel)).read()
+
+def _fn_body(text, header_re, what):
+    """text of the brace-balanced body following the first match of header_re"""
+    m = re.search(header_re, text)
+    if not m:
+        raise Exception(f"anchor gone: {what}")
+    i = text.index("{", m.end() - 1)
+    depth, j = 0, i
+    while j < len(text):
+        if text[j] == "{":
+            depth += 1
+        elif text[j] == "}":
+            depth -= 1
+            if depth == 0:
+                return text[i:j + 1]
+        j += 1
+    raise Exception(f"unbalanced body: {what}")
+
+def _lean_str(s):
+    out = []
+    for c in s:
+        if c in '"\\':
+            out.append("\\" + c)
+        elif ord(c) < 32 or ord(c) > 126:
+            raise Exception(f"unexpected character {c!r} in extracted literal")
+        else:
+            out.append(c)
+    return '"' + "".join(out) + '"'
+
+def _lean_chars(s):
+    """a Rust string literal as a Lean `List Char` literal (the elaborator cannot reduce `String.toList` cheaply)"""
+    out = []
+    for c in s:
+        if ord(c) < 32 or ord(c) > 126:
+            raise Exception(f"unexpected character {c!r} in extracted literal")
+        out.append("'\\''" if c == "'" else ("'\\\\'" if c == "\\" else f"'{c}'"))
+    return "[" + ", ".join(out) + "]"
+
+def _lean_chars_list(xs):
+    return "[" + ", ".join(_lean_chars(x) for x in xs) + "]"
+
+def _lean_list(xs):
+    return "[" + ", ".join(_lean_str(x) for x in xs) + "]"
+
+GEN_HEADER = "/- GENERATED by tools/extract.py from {src} — do not edit; regenerated on every ./check run -/\n"
+
+def go_ident_tables():
+    """keyword list and escape cases of go/mangle.rs::go_ident"""
+    t = _src("crates/compiler/src/go/mangle.rs")
+    kw_body = _fn_body(t, r"fn is_go_keyword\(s: &str\) -> bool \{", "mangle.rs::is_go_keyword")
+    m = re.search(r"matches!\(\s*s,(.*?)\)\s*\}", kw_body, flags=re.S)
+    if not m:
+        raise Exception("is_go_keyword is no longer a single matches!(s, …)")
+    arms = [a.strip() for a in m.group(1).split("|")]
+    kws = []
+    for a in arms:
+        mm = re.fullmatch(r'"([a-z]+)"', a)
+        if not mm:
+            raise Exception(f"is_go_keyword: unexpected arm {a!r}")
+        kws.append(mm.group(1))
+    if len(kws) < 10 or len(set(kws)) != len(kws):
+        raise Exception(f"is_go_keyword: suspicious keyword list ({len(kws)} entries)")
+    gi = _fn_body(t, r"pub fn go_ident\(name: &str\) -> String \{", "mangle.rs::go_ident")
+    norm = re.sub(r"\s+", " ", gi)
+    if "if is_valid_go_ident(name) && !is_go_keyword(name) { return name.to_string(); }" not in norm:
+        raise Exception("go_ident: the identity guard changed")
+    m = re.search(r'let mut out = String::from\("([^"]*)"\);', norm)
+    if not m:
+        raise Exception("go_ident: escape prefix not found")
+    prefix = m.group(1)
+    if "if ch.is_ascii_alphanumeric() { out.push(ch); continue; }" not in norm:
+        raise Exception("go_ident: alphanumeric pass-through changed")
+    to_us = re.findall(r"if ch == '(.)' \{ out\.push\('(.)'\); continue; \}", norm)
+    if not to_us or any(b != "_" for _, b in to_us):
+        raise Exception(f"go_ident: single-character escape cases changed: {to_us}")
+    m = re.search(r'out\.push_str\("([^"]*)"\); let mut buf = \[0u8; 4\]; for b in ch\.encode_utf8\(&mut buf\)\.as_bytes\(\) \{ '
+                  r'use std::fmt::Write; write!\(&mut out, "\{:02x\}", b\)\.unwrap\(\); \} out\.push\(\'(.)\'\); \} out \}', norm)
+    if not m:
+        raise Exception("go_ident: hex escape tail changed")
+    hex_open, hex_close = m.group(1), m.group(2)
+    # every branch accounted for: guard, alnum, the single-char cases, hex tail
+    if norm.count("if ") != 2 + len(to_us) or norm.count("continue;") != 1 + len(to_us):
+        raise Exception("go_ident: unexpected extra branch")
+    vi = re.sub(r"\s+", " ", _fn_body(t, r"fn is_valid_go_ident\(s: &str\) -> bool \{", "mangle.rs::is_valid_go_ident"))
+    want = ("{ let bytes = s.as_bytes(); let Some((&first, rest)) = bytes.split_first() else { return false; }; "
+            "if !(first.is_ascii_alphabetic() || first == b'_') { return false; } "
+            "rest.iter().all(|b| b.is_ascii_alphanumeric() || *b == b'_') }")
+    if vi != want:
+        raise Exception("is_valid_go_ident: body changed; the Lean transcription isValidGoIdent must be re-read")
+    return {"keywords": kws, "prefix": prefix, "to_underscore": [a for a, _ in to_us],
+            "hex_open": hex_open, "hex_close": hex_close}
+
+def gen_go_keywords():
+    d = go_ident_tables()
+    chars = ", ".join("'" + c + "'" for c in d["to_underscore"])
+    text = GEN_HEADER.format(src="crates/compiler/src/go/mangle.rs (go_ident, is_go_keyword)") + f"""namespace Goml.Gen
+
+/-- the strings `is_go_keyword` matches, in source order -/
+def goKeywords : List (List Char) := {_lean_chars_list(d["keywords"])}
+
+/-- `String::from(…)` that starts every escaped identifier -/
+def escPrefix : List Char := {_lean_chars(d["prefix"])}
+
+/-- characters `go_ident` rewrites to a single `_` (besides passing ASCII alphanumerics through) -/
+def escToUnderscore : List Char := [{chars}]
+
+/-- every other character becomes `escHexOpen ++ hex(utf8 bytes) ++ escHexClose` -/
+def escHexOpen : List Char := {_lean_chars(d["hex_open"])}
+def escHexClose : Char := '{d["hex_close"]}'
+
+end Goml.Gen
+"""
+    write_if_changed("GoKeywords.lean", text)
+
+PRIMS = ["Unit", "Bool", "Int8", "Int16", "Int32", "Int64", "Uint8", "Uint16", "Uint32", "Uint64", "Float32", "Float64", "String"]
+
+def _prim_arms(body, what):
+    arms = dict(re.findall(r'(?:tast::Ty|Self|Ty)::T(\w+)\s*=>\s*(?:RcDoc::text\()?"(\w+)"', body))
+    got = {k: v for k, v in arms.items() if k in PRIMS}
+    if sorted(got) != sorted(PRIMS):
+        raise Exception(f"{what}: primitive arms changed: {sorted(got)}")
+    return [got[p] for p in PRIMS]
+
+def _literals(body):
+    """string literals of a function body in source order (comments stripped)"""
+    body = re.sub(r"//.*", "", body)
+    return re.findall(r'"((?:[^"\\]|\\.)*)"', body)
+
+def ty_name_tables():
+    t_m = _src("crates/compiler/src/go/mangle.rs")
+    t_g = _src("crates/compiler/src/go/goast.rs")
+    t_n = _src("crates/compiler/src/names.rs")
+    t_p = _src("crates/compiler/src/pprint/tast_pprint.rs")
+    t_t = _src("crates/compiler/src/tast.rs")
+    # tast::Ty constructors (shape of the Lean `Ty`)
+    enum_body = _fn_body(t_t, r"pub enum Ty \{", "tast.rs::Ty")
+    ctors = re.findall(r"^\s*(T\w+)", enum_body, flags=re.M)
+    want_ctors = ["TVar"] + ["T" + p for p in PRIMS] + ["TTuple", "TEnum", "TStruct", "TDyn", "TApp", "TArray", "TVec", "TRef", "TParam", "TFunc"]
+    if ctors != want_ctors:
+        raise Exception(f"tast::Ty constructors changed: {ctors}")
+    enc = _fn_body(t_m, r"pub fn encode_ty\(ty: &tast::Ty\) -> String \{", "mangle.rs::encode_ty")
+    gtn = _fn_body(t_g, r"pub fn go_type_name_for\(ty: &tast::Ty\) -> String \{", "goast.rs::go_type_name_for")
+    inh = _fn_body(t_n, r"fn inherent_base\(receiver_ty: &tast::Ty\) -> String \{", "names.rs::inherent_base")
+    doc = _fn_body(t_p[t_p.index("impl Ty {"):], r"pub fn to_doc\(&self\) -> RcDoc<'_, \(\)> \{", "tast_pprint.rs::Ty::to_doc")
+    tables = {"encode_ty": _prim_arms(enc, "encode_ty"), "go_type_name_for": _prim_arms(gtn, "go_type_name_for"),
+              "inherent_base": _prim_arms(inh, "inherent_base"), "to_doc": _prim_arms(doc, "Ty::to_doc")}
+    # composite pieces: the literals after the primitive arms, in source order
+    def tail(body, what, expect, lead=0):
+        lits = [x for x in _literals(body)]
+        lits = lits[:lead] + lits[lead + len(PRIMS):]
+        if lits != expect:
+            raise Exception(f"{what}: composite arms changed: {lits}")
+        return lits
+    tail(enc, "encode_ty", ["Var", "TParam_{}", "_", "Tuple_{}", "Dyn_{}", "_", "{}_{}", "Array_{}_{}", "Vec_{}", "Ref_{}", "_", "Fn_{}_to_{}"])
+    tail(gtn, "go_type_name_for", ["Tuple{}", "_", "Array{}_{}", "_", "Vec_{}", "_", "Ptr_{}", "_", "TFunc", "_unit", "{:?}"])
+    reps = re.findall(r"\.replace\(\[((?:'.',?\s*)+)\], \"_\"\)", gtn)
+    if len(reps) != 4:
+        raise Exception(f"go_type_name_for: expected four .replace([...], \"_\") calls, found {len(reps)}")
+    rep_sets = [re.findall(r"'(.)'", r) for r in reps]
+    if rep_sets[0] != rep_sets[1] or rep_sets[1] != rep_sets[2] or rep_sets[3] != rep_sets[0] + ["*"]:
+        raise Exception(f"go_type_name_for: replace sets changed: {rep_sets}")
+    tail(doc, "Ty::to_doc", ["{:?}", "(", ", ", ")", "dyn ", "[", ", ", "]", "[", "; ", "]", "Vec[", "]", "Ref[", "]", "(", ", ", ") -> "], lead=1)
+    g2 = re.sub(r"\s+", " ", t_g)
+    if 'fn dyn_struct_name(trait_name: &str) -> String { go_ident(&format!("dyn__{}", trait_name)) }' not in g2:
+        raise Exception("goast.rs::dyn_struct_name changed")
+    if 'pub fn ref_struct_name(elem: &tast::Ty) -> String { format!("ref_{}_x", go_ident(&encode_ty(elem)).to_lowercase()) }' not in g2:
+        raise Exception("goast.rs::ref_struct_name changed")
+    n2 = re.sub(r"\s+", " ", t_n)
+    for frag in ['format!( "trait_impl#{}#{}#{}", trait_name.0, ty_compact(for_ty), method_name )',
+                 'if is_primitive(receiver_ty) { return format!("{}_{}", inherent_base(receiver_ty), method_name); }',
+                 'format!( "inherent#{}#{}#{}", base, ty_compact(receiver_ty), method_name )',
+                 'ty.to_pretty(10000) .chars() .filter(|c| !c.is_whitespace()) .collect()',
+                 '| tast::Ty::TRef { .. } => receiver_ty.get_constr_name_unsafe(), other => ty_compact(other),']:
+        if frag not in n2:
+            raise Exception(f"names.rs changed near: {frag}")
+    prim_body = _fn_body(t_n, r"fn is_primitive\(ty: &tast::Ty\) -> bool \{", "names.rs::is_primitive")
+    if re.findall(r"tast::Ty::T(\w+)", prim_body) != PRIMS:
+        raise Exception("names.rs::is_primitive changed")
+    cn = re.sub(r"\s+", " ", _fn_body(t_t, r"pub fn get_constr_name_unsafe\(&self\) -> String \{", "tast.rs::get_constr_name_unsafe"))
+    for frag in ['Self::TEnum { name } | Self::TStruct { name } => name.clone(),', 'Self::TApp { ty, .. } => ty.get_constr_name_unsafe(),',
+                 'Self::TVec { .. } => "Vec".to_string(),', 'Self::TRef { .. } => "Ref".to_string(),']:
+        if frag not in cn:
+            raise Exception(f"get_constr_name_unsafe changed near: {frag}")
+    return tables, rep_sets[0], rep_sets[3]
+
+def gen_ty_names():
+    tables, rep, rep_ref = ty_name_tables()
+    ctor = [p[0].lower() + p[1:] for p in PRIMS]
+    out = [GEN_HEADER.format(src="go/mangle.rs (encode_ty), go/goast.rs (go_type_name_for), names.rs (inherent_base), pprint/tast_pprint.rs (Ty::to_doc), tast.rs (Ty)"),
+           "namespace Goml.Gen\n",
+           "/-- the payload-free constructors of `tast::Ty` other than `TVar` -/",
+           "inductive Prim where", *[f"  | {c}" for c in ctor], "  deriving DecidableEq, Repr, Inhabited\n",
+           "def Prim.all : List Prim := [" + ", ".join("." + c for c in ctor) + "]\n"]
+    for fn, lean in [("encode_ty", "encodeTyPrim"), ("go_type_name_for", "goTypeNamePrim"), ("inherent_base", "inherentBasePrim"), ("to_doc", "toDocPrim")]:
+        out.append(f"/-- spelling of each primitive in `{fn}` -/")
+        out.append(f"def {lean} : Prim → List Char")
+        for c, s in zip(ctor, tables[fn]):
+            out.append(f"  | .{c} => {_lean_chars(s)}")
+        out.append("")
+    out.append("/-- rust constructor tag of each primitive (used by the line protocol) -/")
+    out.append("def primTag : Prim → String")
+    for c, p in zip(ctor, PRIMS):
+        out.append(f"  | .{c} => {_lean_str('T' + p)}")
+    out.append("")
+    out.append("/-- characters `go_type_name_for` replaces by `_` in component names (tuple, array, vec) -/")
+    out.append("def typeNameReplaced : List Char := [" + ", ".join("'" + c + "'" for c in rep) + "]")
+    out.append("/-- … and in the `Ptr_` case -/")
+    out.append("def typeNameReplacedRef : List Char := [" + ", ".join("'" + c + "'" for c in rep_ref) + "]")
+    out.append("\nend Goml.Gen\n")
+    write_if_changed("TyNames.lean", "\n".join(out))
+
+GO_PREDECLARED = ["any", "bool", "byte", "comparable", "complex64", "complex128", "error", "float32", "float64", "int", "int8", "int16",
+                  "int32", "int64", "rune", "string", "uint", "uint8", "uint16", "uint32", "uint64", "uintptr", "true", "false", "iota",
+                  "nil", "append", "cap", "clear", "close", "complex", "copy", "delete", "imag", "len", "make", "max", "min", "new",
+                  "panic", "print", "println", "real", "recover"]
+
+def runtime_tables():
+    t_r = _src("crates/compiler/src/go/runtime.rs")
+    t_c = _src("crates/compiler/src/go/compile.rs")
+    mk = _fn_body(t_r, r"pub fn make_runtime\(\) -> Vec<goast::Item> \{", "runtime.rs::make_runtime")
+    ctor_fns = re.findall(r"Item::Fn\((\w+)\(\)\)", mk)
+    if len(ctor_fns) < 10:
+        raise Exception("make_runtime: helper list not found")
+    helpers = []
+    for f in ctor_fns:
+        body = _fn_body(t_r, r"fn " + f + r"\(\) -> goast::Fn \{", f"runtime.rs::{f}")
+        m = re.search(r'to_string_fn\("(\w+)"', body) or re.search(r'goast::Fn \{\s*name: "(\w+)"\.to_string\(\)', body)
+        if not m:
+            raise Exception(f"runtime.rs::{f}: helper name not found")
+        if m.group(1) != f:
+            raise Exception(f"runtime.rs::{f}: Go name {m.group(1)} differs from the Rust function name")
+        helpers.append(m.group(1))
+    imports = re.findall(r'path: "(\w+)"\.to_string\(\)', mk)
+    r2 = re.sub(r"\s+", " ", t_r)
+    for frag in ['pub fn array_helper_fn_name(prefix: &str, ty: &tast::Ty) -> String { format!("{}__{}", prefix, go_ident(&encode_ty(ty))) }',
+                 'pub fn ref_helper_fn_name(prefix: &str, ty: &tast::Ty) -> String { format!("{}__{}", prefix, go_ident(&encode_ty(ty))) }']:
+        if frag not in r2:
+            raise Exception(f"runtime.rs changed near: {frag[:60]}")
+    arr = sorted(set(re.findall(r'array_helper_fn_name\("(\w+)"', t_r + t_c)))
+    ref = sorted(set(re.findall(r'ref_helper_fn_name\("(\w+)"', t_r + t_c)))
+    if arr != ["array_get", "array_set"] or ref != ["ref", "ref_get", "ref_set"]:
+        raise Exception(f"array/ref helper prefixes changed: {arr} {ref}")
+    # gensym prefixes: every call of `.gensym("…")` in the compiler crate
+    prefixes = []
+    root = os.path.join(REPO, "crates/compiler/src")
+    for dp, dn, fns in sorted(os.walk(root)):
+        dn.sort()
+        if os.path.basename(dp) == "tests":
+            dn[:] = []
+            continue
+        for fn in sorted(fns):
+            if fn.endswith(".rs"):
+                txt = open(os.path.join(dp, fn)).read()
+                for m in re.finditer(r'\bgensym\(\s*("?)([^)"]*)\1\s*\)', txt):
+                    if "fn gensym" in txt[max(0, m.start() - 10):m.start() + 6]:
+                        continue
+                    if m.group(1) != '"':
+                        raise Exception(f"{fn}: gensym called with a non-literal prefix: {m.group(0)}")
+                    if m.group(2) not in prefixes:
+                        prefixes.append(m.group(2))
+    if len(prefixes) < 3:
+        raise Exception("gensym call sites not found")
+    env = _src("crates/compiler/src/env.rs")
+    if 'format!("{}{}", prefix, current)' not in env:
+        raise Exception("env.rs::Gensym::gensym changed")
+    hir = _src("crates/compiler/src/hir.rs")
+    if 'format!("{}/{}", self.local_hint(id), id.idx)' not in hir:
+        raise Exception("hir.rs::local_ident_name changed")
+    anf = _src("crates/compiler/src/anf.rs")
+    if anf.count('.replace("/", "__")') != 3:
+        raise Exception("anf.rs::anf_renamer changed (expected three .replace(\"/\", \"__\"))")
+    c2 = re.sub(r"\s+", " ", t_c)
+    m = re.search(r'let is_entry = f\.name == "(\w+)" \|\| f\.name\.ends_with\("::(\w+)"\); let patched_name = if is_entry \{ "(\w+)"\.to_string\(\) \} else \{ go_ident\(&f\.name\) \};', c2)
+    if not m or m.group(1) != m.group(2):
+        raise Exception("compile.rs::compile_fn entry renaming changed")
+    entry_src, entry_go = m.group(1), m.group(3)
+    for frag in ['fn dyn_struct_go_name(trait_name: &str) -> String { go_ident(&format!("dyn__{}", trait_name)) }',
+                 'fn dyn_vtable_struct_go_name(trait_name: &str) -> String { go_ident(&format!("dyn__{}_vtable", trait_name)) }',
+                 'go_ident(&format!( "dyn__{}__vtable__{}", trait_name, encode_ty(for_ty) ))',
+                 'go_ident(&format!( "dyn__{}__wrap__{}__{}", trait_name, encode_ty(for_ty), method_name ))',
+                 'let clashes_with_type = goenv.enums().any(|(name, _)| name.0 == variant_name) || goenv.structs().any(|(name, _)| name.0 == variant_name); '
+                 'if count > 1 || clashes_with_type { format!("{}_{}", go_ident(enum_name), go_ident(variant_name)) } else { go_ident(variant_name) }',
+                 'let type_identifier_method = format!("is{}", go_ident(&name.0));']:
+        if frag not in c2:
+            raise Exception(f"compile.rs changed near: {frag[:70]}")
+    lift = _src("crates/compiler/src/lift.rs")
+    m1 = re.search(r'const CLOSURE_ENV_PREFIX: &str = "(\w+)";', lift)
+    m2 = re.search(r'const CLOSURE_APPLY_METHOD: &str = "(\w+)";', lift)
+    if not m1 or not m2 or 'format!("{}{}_{}", CLOSURE_ENV_PREFIX, hint, self.next_id)' not in lift or 'format!("{}{}", CLOSURE_ENV_PREFIX, self.next_id)' not in lift:
+        raise Exception("lift.rs closure naming changed")
+    mono = re.sub(r"\s+", " ", _src("crates/compiler/src/mono.rs"))
+    for frag in ['.map(|(k, v)| format!("{}_{}", k, ty_compact(v))) .collect::<Vec<_>>() .join("__"); format!("{}__{}", orig, suffix)',
+                 'format!( "__{}", args.iter().map(ty_compact).collect::<Vec<_>>().join("__") )',
+                 'let func_name = trait_impl_fn_name(&trait_name, &receiver_ty, &method_name.0);']:
+        if frag not in mono:
+            raise Exception(f"mono.rs changed near: {frag[:70]}")
+    # predeclared Go identifiers the emitted code relies on: literals used as Go names in runtime.rs / compile.rs
+    relied = []
+    for txt in (t_r, t_c):
+        for lit in re.findall(r'name: "([A-Za-z_][\w.]*)"\.to_string\(\)', txt):
+            if lit in GO_PREDECLARED and lit not in relied:
+                relied.append(lit)
+    qualified = sorted(set(l for l in re.findall(r'name: "(\w+\.\w+)"\.to_string\(\)', t_r + t_c)))
+    fixed_locals = sorted(set(l for l in re.findall(r'\("(\w+)"\.to_string\(\), ', t_r + t_c)))
+    return {"helpers": helpers, "imports": imports, "array_prefixes": arr, "ref_prefixes": ref, "gensym": prefixes,
+            "entry_src": entry_src, "entry_go": entry_go, "closure_prefix": m1.group(1), "closure_apply": m2.group(1),
+            "relied": relied, "qualified": qualified, "fixed_params": fixed_locals}
+
+def gen_runtime():
+    d = runtime_tables()
+    text = GEN_HEADER.format(src="go/runtime.rs, go/compile.rs, lift.rs, env.rs (Gensym), compile_match.rs/anf.rs (gensym call sites)") + f"""namespace Goml.Gen
+
+/-- Go functions `make_runtime` always declares (before dead-code elimination) -/
+def runtimeHelpers : List (List Char) := {_lean_chars_list(d["helpers"])}
+
+/-- packages the runtime imports (their names are package-scope identifiers of the file) -/
+def runtimeImports : List (List Char) := {_lean_chars_list(d["imports"])}
+
+/-- per-type helper families `prefix ++ "__" ++ go_ident(encode_ty ty)` -/
+def arrayHelperPrefixes : List (List Char) := {_lean_chars_list(d["array_prefixes"])}
+def refHelperPrefixes : List (List Char) := {_lean_chars_list(d["ref_prefixes"])}
+
+/-- every literal prefix passed to `Gensym::gensym` anywhere in the compiler crate -/
+def gensymPrefixes : List (List Char) := {_lean_chars_list(d["gensym"])}
+
+/-- `compile_fn` renames the function called `entrySrc` (or `…::entrySrc`) to `entryGo` -/
+def entrySrc : List Char := {_lean_chars(d["entry_src"])}
+def entryGo : List Char := {_lean_chars(d["entry_go"])}
+
+def closureEnvPrefix : List Char := {_lean_chars(d["closure_prefix"])}
+def closureApplyMethod : List Char := {_lean_chars(d["closure_apply"])}
+
+/-- predeclared Go identifiers that runtime.rs / compile.rs emit by name -/
+def reliedPredeclared : List (List Char) := {_lean_chars_list(d["relied"])}
+
+/-- parameter names hard-wired in generated helper functions -/
+def fixedParamNames : List (List Char) := {_lean_chars_list(d["fixed_params"])}
+
+end Goml.Gen
+"""
+    write_if_changed("Runtime.lean", text)
+
+def gen_dispatch():
+    """C17: the four naming sites of a method and the dyn coercion guard — shape assertions only;
+    the transcription lives in Model/Mangle.lean (dispatch section)"""
+    cm = re.sub(r"\s+", " ", _src("crates/compiler/src/compile_match.rs"))
+    mono = re.sub(r"\s+", " ", _src("crates/compiler/src/mono.rs"))
+    comp = re.sub(r"\s+", " ", _src("crates/compiler/src/go/compile.rs"))
+    chk = re.sub(r"\s+", " ", _src("crates/compiler/src/typer/check.rs"))
+    nm = re.sub(r"\s+", " ", _src("crates/compiler/src/names.rs"))
+    want = [
+        (cm, "definition site", 'let func_name = if let Some(trait_name) = &impl_block.trait_name { trait_impl_fn_name(trait_name, for_ty, method_name) } else { inherent_method_fn_name(for_ty, method_name) };'),
+        (cm, "static site guard", 'let for_ty = receiver.get_ty(); if has_tparam(&for_ty) { return core::Expr::ETraitCall {'),
+        (cm, "static site", 'let for_ty = args[0].get_ty(); core::Expr::EVar { name: trait_impl_fn_name(trait_name, &for_ty, &method_name.0), ty: method_ty.clone(), }'),
+        (cm, "inherent site", 'core::Expr::EVar { name: inherent_method_fn_name(receiver_ty, &method_name.0), ty: method_ty.clone(), }'),
+        (mono, "bounded site", 'let receiver = mono_expr(ctx, &receiver, s);'),
+        (mono, "bounded site", 'let receiver_ty = all_args[0].get_ty(); let func_name = trait_impl_fn_name(&trait_name, &receiver_ty, &method_name.0);'),
+        (mono, "phase 2 on EToDyn", 'MonoExpr::EToDyn { trait_name, for_ty: m.collapse_type_apps(&for_ty),'),
+        (mono, "collapse_type_apps", 'Ty::TApp { ty: base, args } if !args.is_empty() => { let base_name = base.get_constr_name_unsafe(); let ident = TastIdent::new(&base_name); if self.enum_base.contains_key(&ident) { let new_u = self.ensure_instance(&base_name, args); Ty::TEnum {'),
+        (mono, "generic inherent index", 'parse_inherent_method_fn_name(func_name).and_then(|(base_type, method_name)| { ctx.inherent_method_index .get(&(base_type.to_string(), method_name.to_string()))'),
+        (comp, "dyn wrapper site", 'let trait_ident = TastIdent(trait_name.to_string()); let impl_name = trait_impl_fn_name(&trait_ident, for_ty, method_name); let impl_go_name = go_ident(&impl_name);'),
+        (comp, "dyn requirement", 'req.vtables.insert((trait_name.0.clone(), for_ty.clone()));'),
+        (chk, "coerce: expected must be dyn", 'let tast::Ty::TDyn { trait_name } = expected else { return expr; }; if matches!(expr.get_ty(), tast::Ty::TDyn { .. }) { return expr; }'),
+        (chk, "coerce: guards", 'let for_ty = expr.get_ty(); if !is_concrete_dyn_target(&for_ty) {'),
+        (chk, "coerce: impl guard", 'if !has_visible_trait_impl(genv, &resolved_trait, &for_ty) { diagnostics.push(Diagnostic::new( Stage::Typer, Severity::Error, format!( "Type {:?} does not implement trait {}", for_ty, resolved_trait ), )); return expr; }'),
+        (chk, "has_visible_trait_impl", 'let key = (trait_name.to_string(), for_ty.clone()); if genv.current().trait_env.trait_impls.contains_key(&key) { return true; } genv.deps .values() .any(|env| env.trait_env.trait_impls.contains_key(&key))'),
+        (nm, "parse_inherent_method_fn_name", 'let mut parts = name.split(\'#\'); if parts.next()? != "inherent" { return None; } let base = parts.next()?; let _ty = parts.next()?; let method = parts.next()?; if parts.next().is_some() { return None; } Some((base, method))'),
+    ]
+    for text, what, frag in want:
+        if frag not in text:
+            raise Exception(f"C17 anchor changed ({what}): {frag[:80]}")
+    text = GEN_HEADER.format(src="compile_match.rs, mono.rs, go/compile.rs, typer/check.rs, names.rs (dispatch sites; shape assertions)") + f"""namespace Goml.Gen
+
+/-- number of source fragments of the method naming sites and the dyn coercion guard that were
+found verbatim in the Rust text on this run (the Lean transcription is `Model/Mangle.lean`, dispatch section) -/
+def dispatchAnchors : Nat := {len(want)}
+
+end Goml.Gen
+"""
+    write_if_changed("Dispatch.lean", text)
+
+EXTRACTORS += [gen_go_keywords, gen_ty_names, gen_runtime, gen_dispatch]
+def _norm(text):
+    """whitespace-normalised source without `//` comments"""
+    return re.sub(r"\s+", " ", re.sub(r"//[^\n]*", "", text))
+
+def gen_package_ids():
+    """C13/C16: package-id assignment (pipeline.rs ×2, hir.rs), root package name and the collection
+    type of `PackageUnit.imports` (packages.rs)"""
+    pipe = _norm(open(os.path.join(REPO, "crates/compiler/src/pipeline/pipeline.rs")).read())
+    pat = (r'let mut package_names: Vec<String> = graph\.packages\.keys\(\)\.cloned\(\)\.collect\(\); package_names\.sort\(\); '
+           r'let mut package_ids = HashMap::new\(\); package_ids\.insert\("(\w+)"\.to_string\(\), hir::PackageId\((\d+)\)\); '
+           r'package_ids\.insert\("(\w+)"\.to_string\(\), hir::PackageId\((\d+)\)\); let mut next_id = (\d+)u32; '
+           r'for name in package_names \{ if name == "(\w+)" \|\| name == "(\w+)" \{ continue; \} '
+           r'package_ids\.insert\(name, hir::PackageId\(next_id\)\); next_id \+= 1; \}')
+    found = re.findall(pat, pipe)
+    if len(found) != 2 or found[0] != found[1]:
+        raise Exception(f"pipeline.rs: expected two identical package-id assignment blocks, found {found}")
+    b, bid, m, mid, first, s1, s2 = found[0]
+    if (s1, s2) != (b, m):
+        raise Exception(f"pipeline.rs: id assignment skips {s1},{s2} but reserves {b},{m}")
+    hir = _norm(open(os.path.join(REPO, "crates/compiler/src/hir.rs")).read())
+    hpat = (r'package_index\.insert\(PackageName\("(\w+)"\.to_string\(\)\), PackageId\((\d+)\)\);.*?'
+            r'package_index\.insert\(PackageName\("(\w+)"\.to_string\(\)\), PackageId\((\d+)\)\); \} let mut next_id = (\d+)u32;')
+    hm = re.search(hpat, hir)
+    if not hm or hm.groups() != (b, bid, m, mid, first):
+        raise Exception(f"hir.rs: package_index constants {hm.groups() if hm else None} differ from pipeline.rs {(b, bid, m, mid, first)}")
+    if "other_packages.sort_by(|a, b| a.0.cmp(&b.0));" not in hir:
+        raise Exception("hir.rs: other_packages are no longer sorted by name")
+    # the three uses of the two orders in typecheck_packages / compile
+    if len(re.findall(r"for name in order\.iter\(\) \{", pipe)) != 2:
+        raise Exception("pipeline.rs: expected two `for name in order.iter()` loops (type-check order)")
+    if len(re.findall(r"for name in graph\.discovery_order\.iter\(\) \{", pipe)) != 3:
+        raise Exception("pipeline.rs: expected three `for name in graph.discovery_order.iter()` loops (concatenation order)")
+    pk = _norm(open(os.path.join(REPO, "crates/compiler/src/pipeline/packages.rs")).read())
+    rm = re.search(r'fn root_package_name\(&self\) -> &str \{ "(\w+)" \}', pk)
+    if not rm:
+        raise Exception("packages.rs: root_package_name not found")
+    im = re.search(r"pub struct PackageUnit \{ pub name: String, pub files: Vec<SourceFileAst>, pub imports: (\w+)<String>, \}", pk)
+    if not im:
+        raise Exception("packages.rs: PackageUnit shape changed")
+    for needle in ["while let Some(package_name) = queue.pop() {", "names.sort();", "deps.sort();",
+                   "let mut queue: Vec<String> = entry_package.imports.iter().cloned().collect();",
+                   "queue.extend(package.imports.iter().cloned());"]:
+        if needle not in pk:
+            raise Exception(f"packages.rs: `{needle}` not found")
+    ordered = {"BTreeSet": "true", "HashSet": "false"}.get(im.group(1))
+    if ordered is None:
+        raise Exception(f"packages.rs: unknown collection {im.group(1)} for PackageUnit.imports")
+    write_if_changed("PackageIds.lean", f"""/- GENERATED by tools/extract.py (gen_package_ids) from pipeline/pipeline.rs, hir.rs, pipeline/packages.rs — do not edit -/
+namespace Goml.Graph
+def builtinName : String := "{b}"
+def builtinId : Nat := {bid}
+def mainName : String := "{m}"
+def mainId : Nat := {mid}
+def firstFreeId : Nat := {first}
+/-- `FlatPackageLayout::root_package_name` -/
+def rootName : String := "{rm.group(1)}"
+/-- `PackageUnit.imports` is a `{im.group(1)}<String>`: iterated in ascending order? -/
+def importsOrdered : Bool := {ordered}
+end Goml.Graph
+""")
+
+EXTRACTORS += [gen_package_ids]
 
 if __name__ == "__main__":
     main()
